@@ -55,19 +55,21 @@ theorem isOut_iff {c : Circuit} (hnd : c.nodeNames.Nodup) (x : Name) : c.isOut x
 theorem ioTy_input_iff (c : Circuit) (stateIO : List (Name × Name)) (x : Name) (t : Nat) :
     ioTy c stateIO x t = "input" ↔
       (t = 0 ∧ isVal stateIO x = true) ∨
-      (stateIO.any (fun p => p.1 == x || p.2 == x) = false ∧ x ∈ c.inputs) := by
+      (isVal stateIO x = false ∧ x ∈ c.inputs) := by
   unfold ioTy ioTy0
+  show (if t = 0 ∧ isVal stateIO x = true then "input"
+        else if isVal stateIO x = true then "buf" else if c.inputs.contains x then "input" else "buf") = "input" ↔ _
   by_cases h1 : t = 0 ∧ isVal stateIO x = true
   · rw [if_pos h1]
     exact ⟨fun _ => Or.inl h1, fun _ => rfl⟩
   · rw [if_neg h1]
-    cases h2 : stateIO.any (fun p => p.1 == x || p.2 == x) with
+    cases h2 : isVal stateIO x with
     | true =>
       simp only [if_true]
       constructor
       · intro h; exact absurd h (by decide)
       · rintro (h | ⟨h, _⟩)
-        · exact absurd h h1
+        · exact absurd ⟨h.1, h2⟩ h1
         · cases h
     | false =>
       simp only [Bool.false_eq_true, if_false]
@@ -80,7 +82,7 @@ theorem ioTy_input_iff (c : Circuit) (stateIO : List (Name × Name)) (x : Name) 
         constructor
         · intro h; exact absurd h (by decide)
         · rintro (h | ⟨_, h⟩)
-          · exact absurd h h1
+          · exact absurd h.2 (by simp)
           · rw [List.contains_iff_mem.2 h] at h3; cases h3
 
 section
@@ -148,8 +150,8 @@ theorem Inv.outputs_iff (C : Ctx c stateIO io) {n : Nat} {s : Tx.UState} (I : In
     show some (c.isOut x) = some true
     rw [(isOut_iff C.wf.nodup x).2 ho]
 
-/-- the free inputs in the vocabulary of the property file; `hki`: no state output is itself an input -/
-theorem inputs_target (C : Ctx c stateIO io) (hki : ∀ p ∈ stateIO, p.1 ∉ c.inputs) {n : Nat} (hn : 0 < n) (y : Name) :
+/-- the free inputs in the vocabulary of the property file -/
+theorem inputs_target (C : Ctx c stateIO io) {n : Nat} (hn : 0 < n) (y : Name) :
     (∃ t, t < n ∧ ∃ x ∈ io, y = N c pfx x t ∧ ioTy c stateIO x t = "input") ↔
     ((∃ p ∈ stateIO, y = N c pfx p.2 0) ∨
      (∃ x ∈ c.inputs, (∀ p ∈ stateIO, p.2 ≠ x) ∧ ∃ t, t < n ∧ y = N c pfx x t)) := by
@@ -161,18 +163,17 @@ theorem inputs_target (C : Ctx c stateIO io) (hki : ∀ p ∈ stateIO, p.1 ∉ c
       exact Or.inl ⟨p, hp, e⟩
     · refine Or.inr ⟨x, hin, ?_, t, ht, e⟩
       intro p hp e2
-      rw [List.any_eq_false] at hany
-      exact hany p hp (by simp [e2])
+      rw [(isVal_iff stateIO x).2 ⟨p, hp, e2⟩] at hany
+      cases hany
   · rintro (⟨p, hp, e⟩ | ⟨x, hin, hne, t, ht, e⟩)
     · refine ⟨0, hn, p.2, C.ioIn _ (C.valsIn p hp), e, ?_⟩
       exact (ioTy_input_iff c stateIO p.2 0).2 (Or.inl ⟨rfl, (isVal_iff stateIO p.2).2 ⟨p, hp, rfl⟩⟩)
     · refine ⟨t, ht, x, C.ioIn x hin, e, (ioTy_input_iff c stateIO x t).2 (Or.inr ⟨?_, hin⟩)⟩
-      rw [List.any_eq_false]
-      intro p hp hh
-      simp only [Bool.or_eq_true, beq_iff_eq] at hh
-      rcases hh with hh | hh
-      · exact hki p hp (hh ▸ hin)
-      · exact hne p hp hh
+      cases hv : isVal stateIO x with
+      | false => rfl
+      | true =>
+        obtain ⟨p, hp, e2⟩ := (isVal_iff stateIO x).1 hv
+        exact absurd e2 (hne p hp)
 
 end
 end Unroll
